@@ -63,7 +63,7 @@ def run_tlc(module, cfg, tag, workers=16, simulate=None, depth=None, seed=None, 
     shutil.rmtree(wd, ignore_errors=True)
     os.makedirs(wd)
     out_path = os.path.join(wd, "tlc.out")
-    cmd = ["java", "-XX:+UseParallelGC", "-Xmx" + heap, "-cp", JAR, "tlc2.TLC",
+    cmd = ["java", "-XX:+UseParallelGC", "-Xss512m", "-Xmx" + heap, "-cp", JAR, "tlc2.TLC",
            "-workers", str(workers), "-metadir", os.path.join(wd, "meta"),
            "-noGenerateSpecTE", "-config", cfg]
     if simulate:
